@@ -49,6 +49,9 @@ pub struct Scn {
     /// set on a reported failure: shuttle's encoded failing schedule (exact replay)
     #[serde(default)]
     pub replay: Option<String>,
+    /// torrents on the access list (deny mode): a cleaning pass drops all their peers and the torrent itself
+    #[serde(default)]
+    pub forbid: Vec<u8>,
 }
 
 /// torrents 0 and 1 share a shard (first byte % 16), torrent 2 lives in another
@@ -69,7 +72,7 @@ type Key = u8;
 enum Rk {
     Ann { t: u8, h: Key, stop: bool, seeder: bool, dl: u32, res: (i32, i32, Vec<Key>) },
     ScrT { t: u8, res: (i32, i32) },
-    CleanT { t: u8, now: u32 },
+    CleanT { t: u8, now: u32, forbidden: bool },
 }
 
 #[derive(Clone, Debug)]
@@ -108,7 +111,10 @@ fn apply(st: &mut MState, k: &Rk) -> bool {
             };
             res.0 == s && res.1 == l
         }
-        Rk::CleanT { t, now } => {
+        Rk::CleanT { t, now, forbidden } => {
+            if *forbidden {
+                st.remove(t);
+            }
             if let Some(l) = st.get_mut(t) {
                 l.retain(|(_, _, dl)| *dl > *now);
                 if l.is_empty() {
@@ -180,6 +186,7 @@ struct World {
     stats: CachePaddedArc<IpVersionStatistics<SwarmWorkerStatistics>>,
     tx: crossbeam_channel::Sender<aquatic_udp::common::StatisticsMessage>,
     access: Arc<AccessListArcSwap>,
+    forbid: Vec<u8>,
     hist: Mutex<Vec<Rec>>,
 }
 
@@ -233,7 +240,7 @@ fn do_op(w: &World, op: &Op, rng: &mut SmallRng) {
             let ret = tick();
             let mut h = w.hist.lock().unwrap();
             for t in 0..3u8 {
-                h.push(Rec { inv, ret, k: Rk::CleanT { t, now: *now } });
+                h.push(Rec { inv, ret, k: Rk::CleanT { t, now: *now, forbidden: w.forbid.contains(&t) } });
             }
         }
     }
@@ -247,7 +254,16 @@ fn scenario_body(scn: &Scn) {
     let (tx, _rx) = crossbeam_channel::unbounded();
     let mut config = Config::default();
     config.protocol.max_response_peers = 1000;
-    let w = Arc::new(World { maps: TorrentMaps::default(), config, stats: Default::default(), tx, access: Arc::new(AccessListArcSwap::default()), hist: Mutex::new(Vec::new()) });
+    let mut list = aquatic_common::access_list::AccessList::default();
+    if !scn.forbid.is_empty() {
+        config.access_list.mode = aquatic_common::access_list::AccessListMode::Deny;
+        for t in &scn.forbid {
+            let hex: String = info_hash(*t).iter().map(|b| format!("{:02x}", b)).collect();
+            list.insert_from_line(&hex).unwrap();
+        }
+    }
+    let access: Arc<AccessListArcSwap> = Arc::new(arc_swap::ArcSwap::from_pointee(list));
+    let w = Arc::new(World { maps: TorrentMaps::default(), config, stats: Default::default(), tx, access, forbid: scn.forbid.clone(), hist: Mutex::new(Vec::new()) });
     let mut rng = SmallRng::seed_from_u64(7);
     for op in &scn.pre {
         do_op(&w, op, &mut rng);
@@ -371,7 +387,23 @@ impl Harness for UdpConc {
             Tier::Thorough => if stress { 4000 } else { 10000 },
         };
         let kind = if r.chance(800) { 0 } else { 1 };
-        Scn { pre, threads, sched: Sched { kind, seed: r.next_u64(), depth: r.range(1, 4) as usize, iters }, replay: None }
+        let sched = Sched { kind, seed: r.next_u64(), depth: r.range(1, 4) as usize, iters };
+        // a third of the programs run in deny mode with some of the torrents on the list
+        let forbid: Vec<u8> = if r.chance(330) { (0..3u8).filter(|_| r.chance(500)).collect() } else { vec![] };
+        // The socket workers never pass on an announce for a torrent the list in force forbids, so the threads do not
+        // announce on those (the peers stored before the list changed are what `pre` creates): such an operation
+        // becomes a scrape of that torrent.
+        let mut threads = threads;
+        for ops in threads.iter_mut() {
+            for op in ops.iter_mut() {
+                if let Op::Ann { t, .. } = op {
+                    if forbid.contains(t) {
+                        *op = Op::Scr { ts: vec![*t] };
+                    }
+                }
+            }
+        }
+        Scn { pre, threads, sched, replay: None, forbid }
     }
 
     fn execute(scn: &Scn, _prop: &str, stats: &mut Stats) -> Outcome {
